@@ -266,6 +266,21 @@ pub fn check_case(ctx: &Ctx, c: &Case) -> Vec<Viol> {
     out
 }
 
+/// arbitrary text: extraction must not panic (used by proptest and by the libFuzzer target)
+pub fn check_text(ctx: &Ctx, password: &str, text: &str) -> Vec<Viol> {
+    ctx.eval();
+    let ser = Ser::new(password.as_bytes());
+    MockTimeSource::set_time(2000 * 3600);
+    match catch(|| ser.decode(text, Some(50))) {
+        Ok(_) => vec![],
+        Err(p) => vec![Viol::new(
+            format!("decode-text-{}", p.sig()),
+            format!("beacon extraction panicked on arbitrary text: {} at {}", p.msg, p.loc),
+            json!({"password": password, "text": text}),
+        )],
+    }
+}
+
 // ---------- generators ----------
 
 fn v4(rng: &mut impl RngCore) -> String {
@@ -532,9 +547,15 @@ pub fn run(ctx: &Ctx) {
         },
     );
     ctx.subspace("proptest: arbitrary printable unicode text up to 200 chars", n3 as u64, false);
+    if std::env::var("VCHECK_FUZZ").is_ok() && !ctx.quick() {
+        crate::fuzzdrv::run_campaign(ctx, "beacon_text", 1000000);
+    }
 }
 
 pub fn replay(ctx: &Ctx, case: &Value) {
+    if crate::fuzzdrv::replay(ctx, case) {
+        return;
+    }
     if let Ok(c) = serde_json::from_value::<Case>(case.clone()) {
         let v = check_case(ctx, &c);
         ctx.report(v);
